@@ -4,9 +4,9 @@ PID="$1"; N="$2"; shift 2
 OUT=/tmp/seed-$PID-$N/out
 LOG=/tmp/coord/seedflow-$PID-$N.log
 {
-  echo "### confirm"; /verif/tools/confirm_seed.sh "$OUT" | tail -1
   for c in "$PID" "$@"; do
     echo "### mutcheck $c"; /verif/tools/mutcheck.sh "$c" "$OUT/patch.diff" quick 2>&1 | grep -E "^(OK|VIOLATION|mutcheck|implementation violates|no longer checks|KNOWN)" | cut -c1-400
   done
+  echo "### confirm"; /verif/tools/confirm_seed.sh "$OUT" | tail -1
 } > "$LOG" 2>&1
 echo done >> "$LOG"
